@@ -197,13 +197,8 @@ class Matrix(Qube):
             classes = keywords['classes']
             del keywords['classes']
 
-        # No other keyword is allowed
-        if keywords:
-          raise ValueError('Matrix.from_scalars() got an unexpected keyword '
-                           'argument "%s"'
-                           % (list(keywords.keys())[0]))
-
-        # Create the Vector object
+        # Create the Vector object; it rejects any other keyword but "recursive"
+        # and "readonly"
         vector = Vector.from_scalars(*args, **keywords)
 
         # Int matrices are disallowed
@@ -216,12 +211,12 @@ class Matrix(Qube):
             if len(item) != 2:
                 raise ValueError('invalid Matrix shape: %s' % item)
 
+            item = tuple(item)
             size = item[0] * item[1]
-            if len(args) != item:
+            if len(args) != size:
                 raise ValueError('incorrect number of Scalars for '
                                  'Matrix.from_scalars() with shape %s'
-                                 % item)
-            item = tuple(item)
+                                 % str(item))
 
         else:
             dim = int(np.sqrt(len(args)))
